@@ -276,4 +276,7 @@ func RaftNode.Restore
   ensures C09/at-most-one-transfer: snapshotLoads == old(snapshotLoads) || snapshotLoads == old(snapshotLoads) + 1
   ensures C09/hyper-cache-rebuilt-after-transfer: isnil(result) && snapshotLoads != old(snapshotLoads) ==> rebuildSeenLoads == snapshotLoads
   ensures C09/version-and-state-reloaded-after-transfer: isnil(result) ==> versionSeenLoads == snapshotLoads && stateSeenLoads == snapshotLoads
+  // the follower tells the leader the version of the LAST EVENT IT APPLIED (the position the
+  // leader's filter continues from), not the balloon's next version, which is one beyond it
+  at RaftNode.attemptToFetchSnapshot assert C09/asks-from-the-last-applied-version: arg2 == n.state.BalloonVersion
 @*/
